@@ -28,7 +28,7 @@ func (e *C11) Rule() string {
 	return "each case generates a box tree in the shapes the reader walks: ftyp; moov{uuid-Canon{CNCV,CCTP,CTBO,CMT1-4,THMB,unknown...},mvhd,trak{tkhd,mdia}...}; uuid xpacket; uuid preview{PRVW}; mdat; unknown / free / skip / foreign-uuid boxes between top-level boxes and as children (including 8..15-byte last children), 32- and 64-bit sizes, FullBox headers; or a HEIF-shaped file (ftyp, meta{hdlr,pitm,iinf{infe},iprp{ipco,ipma},iloc}, mdat with the Exif item); a third of the cases then make one non-top-level box overstate or understate its size. The reader is driven through isobmff.Reader over a harness-owned 4 KiB bufio.Reader on a counting reader (stream position = bytes taken from the counting reader minus br.Buffered()), one ReadMetadata per top-level box, with recording callbacks that read everything (io.ReadAll, odd-sized reads, io.Copy, Read mixed with the box's own Peek/Discard), nothing, or a part, and that in a sixth of the cases report an error afterwards (the position oracle holds regardless of what a callback returns). Oracle (well-formed trees): after ReadFTYP and after every ReadMetadata the position equals the start of the next top-level box; Exif callbacks for CMT1..CMT4 carry first-directory type IFD0/Exif/MakerNote/GPS, the payload's byte order, first-IFD offset and length, and their reader yields exactly the payload after the 8-byte TIFF header; the XMP callback yields exactly the xpacket payload; the preview callback gets the PRVW width/height/size and exactly the JPEG bytes. Malformed trees: the position never passes the end of the top-level box being processed and equals it when no error is returned. Also through DecodeCR3/PreviewCR3 on the well-formed CR3 shapes (preview bytes must equal the generator's). Non-trivial: >=2 top-level boxes after ftyp and >=1 callback or >=3 nested children; distinct = (top-level type sequence, malformation kind, callback behaviour)."
 }
 func (e *C11) Assumptions() []string {
-	return []string{"top-level boxes are well-formed in every case (the property's malformed variants concern children)", "callback content is asserted for the CR3 callbacks the statement names (CMT1-4, xpacket, PRVW); for the HEIF Exif item only positions are asserted"}
+	return []string{"top-level boxes are well-formed in every case (the property's malformed variants concern children)", "callback content is asserted for the CR3 callbacks the statement names (CMT1-4, xpacket, PRVW) and, in well-formed HEIF files, for the Exif item (32- and 64-bit mdat headers)"}
 }
 func (e *C11) Plan(tier string, seed uint64) int {
 	if tier == "thorough" {
@@ -116,16 +116,21 @@ func (e *C11) Run(c *core.Ctx, idx int) {
 		}
 		return append(h, make([]byte, r.Pick(0, 2, 6, 7, 8, 9))...)
 	}
+	var heifTIFF []byte
 	if heif {
 		t, _, _ := gen.SynthPayload(r, r.Bool(), 2)
 		if r.Chance(1, 5) {
 			t = tiny()
 		}
-		data = gen.BuildHEIF(r, t, r.Intn(4))
+		heifTIFF = t
+		data = gen.BuildHEIF(r, t, r.Intn(8))
 		// recover the top-level layout with the harness's own walker
 		p := 0
 		for p+8 <= len(data) {
 			sz := int(binary.BigEndian.Uint32(data[p:]))
+			if sz == 1 && p+16 <= len(data) {
+				sz = int(binary.BigEndian.Uint64(data[p+8:])) // 64-bit size form
+			}
 			if sz < 8 || p+sz > len(data) {
 				break
 			}
@@ -362,6 +367,28 @@ func (e *C11) Run(c *core.Ctx, idx int) {
 		callbacks++
 		got, clean := consume(src)
 		escaped("Exif")
+		if heif && !malformed && len(heifTIFF) >= 8 {
+			// the Exif item of a HEIF file: what the callback is told and given must describe the
+			// item's TIFF block, no more and no fewer bytes (the item ends with the block)
+			pl := heifTIFF
+			bo, o := utils.LittleEndian, binary.ByteOrder(binary.LittleEndian)
+			if pl[0] == 'M' {
+				bo, o = utils.BigEndian, binary.BigEndian
+			}
+			if h.ByteOrder != bo || h.FirstIfdOffset != o.Uint32(pl[4:]) || int(h.ExifLength) != len(pl) {
+				viol("bmff:heif-exif-header", fmt.Sprintf("Exif item header (order %v, first %d, len %d) does not describe the item's TIFF block (order %v, first %d, len %d)", h.ByteOrder, h.FirstIfdOffset, h.ExifLength, bo, o.Uint32(pl[4:]), len(pl)))
+			}
+			if full {
+				if !sameBytes(got, pl[8:]) {
+					viol("bmff:heif-exif-bytes", fmt.Sprintf("Exif item callback reader yielded %d bytes, the block after its TIFF header has %d (or content differs)", len(got), len(pl)-8))
+				} else if !clean {
+					viol("bmff:heif-exif-eof", "Exif item callback reader did not end with a clean EOF")
+				}
+			} else if !bytes.HasPrefix(pl[8:], got) {
+				viol("bmff:heif-exif-bytes", "Exif item callback reader yielded bytes that are not a prefix of the block")
+			}
+			return cbErr()
+		}
 		if heif || malformed {
 			return cbErr()
 		}
